@@ -2,6 +2,7 @@ package rules
 
 import (
 	"fmt"
+	"go/token"
 
 	"golang.org/x/tools/go/ssa"
 
@@ -55,7 +56,7 @@ func init() {
 		Explanation: "ESP path simulation of rotate.Key and rotate.Bootstrap with summaries through their step helpers. " +
 			"R1 old key destroyed only in states with Finalize:ok; R2 Finalize only with Create:ok∧Sign:ok, SetPrimary only with Sign:ok; " +
 			"R3 no SetPrimary/Finalize/DestroyOld after any failed step; R4 nil return of Key ⇒ Create:ok∧Sign:ok∧Finalize:ok; " +
-			"R5 Bootstrap: Finalize only after both signing steps succeeded, nil return ⇒ Finalize:ok. R6 the newly created key (operand derived from CreateNewSigningKeyVersion) is never destroyed once Finalize succeeded. " +
+			"R7 a nil return happens only after the old key was destroyed or the previous primary version name was found empty. R5 Bootstrap: Finalize only after both signing steps succeeded, nil return ⇒ Finalize:ok. R6 the newly created key (operand derived from CreateNewSigningKeyVersion) is never destroyed once Finalize succeeded. " +
 			"Every fault position of the property's quantifier is the :fail edge of one of the tracked calls; crash points between calls are covered by R1's ordering. " +
 			"Not covered: that the surviving state works (reload + sign), the later fault-free rotation, KMS/HSM behaviour.",
 		Assumptions: []string{"go/types, go/ssa, VTA call graph", "multierr.Combine/Append return nil iff all arguments are nil", "fmt.Errorf/errors.New return non-nil", "interface methods of ManagerInterface/CertificateAuthority are opaque events"},
@@ -119,6 +120,19 @@ func runC10(c *Ctx) {
 	mkRule := func(bootstrap bool) *esp.Rule {
 		r := &esp.Rule{Name: "C10"}
 		r.Relevant = func(f *ssa.Function) bool { return relevant[f] && load.FuncInRepo(f) }
+		// flag 0: the previous primary key version name (a string derived from
+		// PrimarySigningKeyVersion) is non-empty
+		r.Flag = func(v ssa.Value) (int, bool) {
+			if v.Type().String() != "string" {
+				return 0, false
+			}
+			if u, ok := v.(*ssa.UnOp); ok && u.Op == token.MUL {
+				if _, isField := u.X.(*ssa.FieldAddr); isField && sl.Derives(v, isPSKV) {
+					return 0, true
+				}
+			}
+			return 0, false
+		}
 		r.Match = func(in ssa.Instruction) []esp.Ev {
 			call, ok := in.(ssa.CallInstruction)
 			if !ok {
@@ -233,6 +247,9 @@ func runC10(c *Ctx) {
 			if !s.Has(bCreateOk) || !s.Has(bSignOk) || !s.Has(bFinOk) {
 				return "R4: rotate.Key may return a nil error in state " + st + " (needs Create:ok∧Sign:ok∧Finalize:ok)"
 			}
+			if !s.Has(bDestroyed) && s.Flag(0) != esp.Zero {
+				return "R7: rotate.Key may report success without having destroyed the previous primary key although one existed, state " + st
+			}
 			return ""
 		}
 		return r
@@ -264,7 +281,7 @@ func runC10(c *Ctx) {
 		})
 		c.S.Note("%s: %d configurations, %d exit outcomes (%d with possibly-nil error), %d violations", tc.name, e.Configs, len(outs), nilExits, n)
 		if n == 0 {
-			for _, rr := range []string{"R1", "R2", "R3", "R4", "R6"} {
+			for _, rr := range []string{"R1", "R2", "R3", "R4", "R6", "R7"} {
 				if tc.boot {
 					continue
 				}
